@@ -98,7 +98,8 @@ theorem mergeNew_last_keep {LY : List HTree} {t : HTree} (hnot : ∀ k ∈ LY, k
 theorem appendTail_pair {X Y : Forest} {p c : Nat} {t : HTree} {vp : Value} {LY : List HTree}
     (S : Stage X Y p c t vp LY) (htc : t.handle = c)
     (hleaf_t : t.value.isText = true → t.kids = [])
-    (hlast : X.consolidation = true → t.value.isText = true → X.lastChild p = Forest.lastOf LY)
+    (hlast : X.consolidation = true → t.value.isText = true →
+      X.selfPrev c (X.lastChild p) = Forest.lastOf LY)
     (hok : (appendTail X p c).2 = .ok) :
     (appendTail X p c).1 = (Y.editAt (some p) (insertLast t)).mergeNewAt p c := by
   subst htc
@@ -135,7 +136,16 @@ theorem appendTail_pair {X Y : Forest} {p c : Nat} {t : HTree} {vp : Value} {LY 
       (fun _ _ _ h => not_text_of_textData_none htd h.2)
   | some tc =>
     have htt : t.value.isText = true := isText_iff_textData.2 ⟨tc, htd⟩
-    have hl := hlast hc htt
+    -- eccbbb7: the helper works with `selfPrev` of the last child, which is the last child of the
+    -- list without the moved node (also when the old-place merge has made the node the last child)
+    have hl : X.addConsolidate t.handle (X.lastChild p) none =
+        X.addConsolidate t.handle (Forest.lastOf LY) none := by
+      have hne : Forest.lastOf LY ≠ some t.handle := by
+        intro e
+        obtain ⟨L', ka, eL, eka, _⟩ := lastOf_eq_some e
+        exact S.ynot ka (by rw [eL]; simp) eka
+      rw [Forest.addConsolidate_eq_old, hlast hc htt, Forest.addConsolidate_eq_old,
+        Forest.selfPrev_of_ne hne]
     rcases List.eq_nil_or_concat LY with e | ⟨A, ka, e⟩
     · subst e
       refine flow1 (by
@@ -164,11 +174,11 @@ theorem appendTail_pair {X Y : Forest} {p c : Nat} {t : HTree} {vp : Value} {LY 
         -- Flow 2: the moved text node is merged into the last child
         have hkat : ka.value.isText = true := isText_iff_textData.2 ⟨ta, hta⟩
         rw [if_pos (isNormal_of_text hkat)] at hl
+        have hkac : ka.handle ≠ t.handle := S.ynot ka hkamem
         have hr2 : X.addConsolidate t.handle (X.lastChild p) none =
             ((X.setValue ka.handle (.text (ta ++ tc))).spliceOut t.handle, true) := by
           rw [hl]
-          exact Forest.addConsolidate_prev hc (hXtext.trans htd) ((S.xtext ka hkamem).trans hta) _
-        have hkac : ka.handle ≠ t.handle := S.ynot ka hkamem
+          exact Forest.addConsolidate_prev hc (hXtext.trans htd) ((S.xtext ka hkamem).trans hta) _ hkac
         obtain ⟨ndLY, _⟩ := S.ysite.nodupKids
         have ndLY' : (handlesList (A ++ ka :: [])).Nodup := ndLY
         have hflow := S.flow ka.handle (.text (ta ++ tc)) ⟨ka, hkamem, rfl⟩ hkac (hleaf_t htt) (by
@@ -249,12 +259,21 @@ end PairAppend
 
 open PairAppend
 
+/-- The last child is not the moved node: the helper takes it as it is. -/
+theorem selfPrev_last {X : Forest} {p c : Nat} {LY : List HTree} (hnot : ∀ k ∈ LY, k.handle ≠ c)
+    (h : X.lastChild p = Forest.lastOf LY) : X.selfPrev c (X.lastChild p) = Forest.lastOf LY := by
+  rw [h]
+  apply Forest.selfPrev_of_ne
+  intro e
+  obtain ⟨L', ka, eL, eka, _⟩ := lastOf_eq_some e
+  exact hnot ka (by rw [eL]; simp) eka
+
 /-- **append**, pair reading: for every forest satisfying the invariant (adjacent text nodes
-    allowed), outside the one corner where xot loses data (`selfMerge`), the model's `append` is
-    the specification `specMoveP` — cut, graft as last child, merge exactly the pair the node
-    separated and exactly the node with the text node it now follows. -/
-theorem append_pair {f : Forest} {p c : Nat} (inv : f.Inv) (hok : (f.append p c).2 = .ok)
-    (hsm : selfMerge f (.lastChildOf p) c = false) :
+    allowed) the model's `append` is the specification `specMoveP` — cut, graft as last child, merge
+    exactly the pair the node separated and exactly the node with the text node it now follows;
+    also in the corner `selfMerge` (the old-place merge makes the node the last child already:
+    since xot eccbbb7 the helper then merges it into its own previous sibling). -/
+theorem append_pair {f : Forest} {p c : Nat} (inv : f.Inv) (hok : (f.append p c).2 = .ok) :
     (f.append p c).1 = specMoveP (.lastChildOf p) c f := by
   have nd := inv.nodup
   have hsc : f.structureCheck (some p) c = true := by
@@ -287,7 +306,8 @@ theorem append_pair {f : Forest} {p c : Nat} (inv : f.Inv) (hok : (f.append p c)
         rw [Forest.prevSibling_of_no_ctx hno]; exact Forest.removeConsolidate_none_left _ _
       rw [hr1] at hok ⊢
       rw [spec_root hgc hno hocc hsite]
-      exact appendTail_pair (stage_root inv sp hgc hno hpt) htc hleaf_t (fun _ _ => hlast) hok
+      have St := stage_root inv sp hgc hno hpt
+      exact appendTail_pair St htc hleaf_t (fun _ _ => selfPrev_last St.ynot hlast) hok
     · obtain ⟨e0, vo, so⟩ := SiteAt.of_ctx nd hctx
       have hself : cx.self = t := by
         have := Forest.get?_of_ctx nd hctx
@@ -312,33 +332,42 @@ theorem append_pair {f : Forest} {p c : Nat} (inv : f.Inv) (hok : (f.append p c)
         obtain ⟨ev, eL⟩ := this
         subst ev eL
         rw [spec_same so O hocc hsite (O.adj_last ndL)]
-        refine appendTail_pair (stage_same O.sX (O.leaf inv so)) rfl hleaf_t ?_ hok
+        have St := stage_same O.sX (O.leaf inv so)
+        refine appendTail_pair St rfl hleaf_t ?_ hok
         intro hcX htt
-        rw [Forest.lastChild_of_get O.sX.kids]
         rcases List.eq_nil_or_concat r1 with e | ⟨r2, kb, e⟩
-        · -- the node would be its own "last child": excluded by the hypotheses
-          exfalso
-          rcases O.shape with ⟨_, e2, _⟩ | ⟨hc, l', a, b, r', x, y, el, er, hx, hy, _, e2⟩
-          · rw [e] at e2
+        · -- the old-place merge has made the node the last child (`selfMerge`): the helper
+          -- takes the node's own previous sibling, the merged text node
+          rcases O.shape with ⟨_, e2, _⟩ | ⟨hc, l', a, b, r', x, y, el, er, hx, hy, e1, e2⟩
+          · exfalso
+            rw [e] at e2
             rw [← e2] at hsame
             exact hsame (lastOf_self hnorm)
-          · subst el er
-            rw [e] at e2
-            subst e2
-            obtain ⟨z, hz⟩ := isText_iff_textData.1 htt
-            unfold selfMerge at hsm
-            rw [hctx, hc] at hsm
-            simp [textData_some hz, hx, hy, Value.isText] at hsm
+          · subst e
+            rw [Forest.lastChild_of_get O.sX.kids, lastOf_self hnorm, Forest.selfPrev_self,
+              Forest.prevSibling_of_ctx O.sX.ctx]
+            simp only [e1, List.append_nil]
+            have han : (a.setValue (.text (x ++ y))).value.isNormal = true := by
+              rw [setValue_value]; rfl
+            rw [lastOf_concat, if_pos han]
+            have c1 : (a.setValue (.text (x ++ y))).value.category = .normal := by
+              simpa [Value.isNormal] using han
+            have c2 : k.value.category = .normal := by simpa [Value.isNormal] using hnorm
+            simp [prevOf, c1, c2]
         · rw [List.concat_eq_append] at e
-          rw [e, lastOf_append_cons, List.append_assoc]
+          apply selfPrev_last St.ynot
+          rw [Forest.lastChild_of_get O.sX.kids, e, lastOf_append_cons, List.append_assoc]
       · have sXp := O.other inv so sp hpo hvpt
         rw [spec_kid so O hpo hocc hsite (fun ψ _ hψ => natFor_insertLast hψ)]
-        refine appendTail_pair (stage_kid O.sX sXp hpo hpt (not_text_of_kids ?_)) rfl hleaf_t ?_ hok
-        · -- the old parent has children
+        have hvok : vo.isText = false := not_text_of_kids (by
+          -- the old parent has children
           have hv := (validTree_node (so.valid inv.valid)).1 k (by simp)
-          cases vo <;> simp_all [kidAllowed, Value.isElement, Value.isDocument]
-        · intro _ _
-          rw [Forest.lastChild_of_get sXp.kids, lastOf_map (kidMap_editAt _ _), lastOf_map (kidMap_editAt _ _),
-            lastOf_map (kidMap_editAt _ _)]
+          cases vo <;> simp_all [kidAllowed, Value.isElement, Value.isDocument])
+        have St := stage_kid O.sX sXp hpo hpt hvok
+        refine appendTail_pair St rfl hleaf_t ?_ hok
+        intro _ _
+        apply selfPrev_last St.ynot
+        rw [Forest.lastChild_of_get sXp.kids, lastOf_map (kidMap_editAt _ _), lastOf_map (kidMap_editAt _ _),
+          lastOf_map (kidMap_editAt _ _)]
 
 end XotModel
